@@ -137,7 +137,12 @@ def h_listen_add(kind):
                 n_after = ob._z3model.eval(tb.count(t), model_completion=True).as_long()
             except Exception:  # noqa
                 n_after = None
-            if n_after is not None and n_after >= 2:
+            listed = getattr(tb, "entry_listed_when_suspended", None)
+            try:
+                listed = None if listed is None else z3.is_true(ob._z3model.eval(listed, model_completion=True))
+            except Exception:  # noqa
+                listed = None
+            if n_after is not None and n_after >= 2 and listed is False:
                 # another subscriber set the topic up while this one was suspended, and this one subscribed again
                 ob.witness = {"signature": "second-listener-for-a-topic-subscribed-meanwhile", "mode": "two-subscribers"}
         if kind_ == "exc":
